@@ -183,37 +183,26 @@ Proof.
   replace (x + 1 - 1 =? -1) with false by lia. lia.
 Qed.
 
-(* one element block (1-based, 0 where a row is shorter) *)
-Theorem c01_exodus_single_block n w faces : c01_wf_faces n w faces ->
-  c01_exodus [c01_exo_enc_block w faces] = c01_std w faces.
-Proof.
-  unfold c01_exodus, c01_exo_enc_block, c01_std. simpl. rewrite map_map.
-  intros H. apply map_ext_in. intros f Hf. unfold c01_wf_faces in H. rewrite Forall_forall in H. destruct (H f Hf).
-  eapply c01_exo_dec_row; eassumption.
-Qed.
-
-(* several blocks: the code keeps the last one only *)
-Theorem c01_exodus_multi_block_refuted :
-  exists b1 b2, c01_wf_faces 5 4 (b1 ++ b2) /\
-    c01_exodus [c01_exo_enc_block 4 b1; c01_exo_enc_block 3 b2] <> c01_std 4 (b1 ++ b2).
-Proof.
-  exists [[0; 1; 2; 3]], [[1; 4; 2]]. split.
-  - repeat constructor; simpl; lia.
-  - vm_compute. discriminate.
-Qed.
-
-(* repaired reader: all blocks in order, padded to the common width *)
-Theorem c01_exodus_fixed_faces n w (blocks : list (nat * list (list Z))) :
+(* any number of element blocks (1-based; a block may be narrower than the widest one and may itself pad
+   short rows with 0): all faces, in block order, in standard form *)
+Theorem c01_exodus_faces n w (blocks : list (nat * list (list Z))) :
   Forall (fun b => (fst b <= w)%nat /\ c01_wf_faces n (fst b) (snd b)) blocks ->
-  c01_exodus_fixed w (map (fun b => c01_exo_enc_block (fst b) (snd b)) blocks)
-  = c01_std w (concat (map snd blocks)).
+  c01_exodus w (map (fun b => c01_exo_enc_block (fst b) (snd b)) blocks) = c01_std w (concat (map snd blocks)).
 Proof.
-  unfold c01_exodus_fixed, c01_std. induction 1 as [|[wb fs] blocks [Hwb Hfs] _ IH]; simpl; [reflexivity|].
-  rewrite map_app. f_equal; [|exact IH]. simpl in *.
-  unfold c01_exo_enc_block. rewrite map_map. apply map_ext_in. intros f Hf.
+  unfold c01_exodus, c01_std. induction 1 as [|[wb fs] blocks [Hwb Hfs] _ IH]; simpl; [reflexivity|].
+  rewrite !map_app. f_equal; [|exact IH]. simpl in *.
+  unfold c01_exo_enc_block. rewrite !map_map. apply map_ext_in. intros f Hf.
   unfold c01_wf_faces in Hfs. rewrite Forall_forall in Hfs. destruct (Hfs f Hf) as [Hw Hl].
-  rewrite (c01_exo_dec_row n) by assumption.
-  unfold c01_pad. rewrite app_length, repeat_length, <- app_assoc, <- repeat_app. f_equal. f_equal. lia.
+  rewrite app_length, map_length, repeat_length, <- app_assoc, <- repeat_app.
+  replace (wb - length f + (w - (length f + (wb - length f))))%nat with (w - length f)%nat by lia.
+  apply (c01_exo_dec_row n); assumption.
+Qed.
+
+Theorem c01_exodus_single_block n w faces : c01_wf_faces n w faces ->
+  c01_exodus w [c01_exo_enc_block w faces] = c01_std w faces.
+Proof.
+  intros H. pose proof (c01_exodus_faces n w [(w, faces)]) as E. simpl in E. rewrite app_nil_r in E.
+  apply E. constructor; [split; [simpl; lia|exact H]|constructor].
 Qed.
 
 (* both coordinate dialects (one 2-D `coord`, or coordx/coordy/coordz) give x, y, z their own arrays *)
@@ -1111,8 +1100,8 @@ Example c01_ugrid_formerly_refuted_nonvacuous :
 Proof. vm_compute. split; reflexivity. Qed.
 
 Example c01_exodus_nonvacuous :
-  c01_exodus [c01_exo_enc_block 4 c01_ex_faces] = [[0; 1; 2; 3]; [1; 4; 2; FILL]]
-  /\ c01_exodus_fixed 4 [c01_exo_enc_block 4 [[0; 1; 2; 3]]; c01_exo_enc_block 3 [[1; 4; 2]]]
+  c01_exodus 4 [c01_exo_enc_block 4 c01_ex_faces] = [[0; 1; 2; 3]; [1; 4; 2; FILL]]
+  /\ c01_exodus 4 [c01_exo_enc_block 4 [[0; 1; 2; 3]]; c01_exo_enc_block 3 [[1; 4; 2]]]
      = [[0; 1; 2; 3]; [1; 4; 2; FILL]].
 Proof. vm_compute. split; reflexivity. Qed.
 
